@@ -1,39 +1,240 @@
-/* C08 v0 feasibility */
+/* C08: the mock verdict is exact - a mocked scenario passes iff the actual calls match the expectations.
+ *
+ * A real MockSupport object is driven step by step through a HISTORY: expectations, actual calls (function,
+ * object, parameter, return value), checkExpectations.  The SHAPE of the history is concrete per obligation (a
+ * script: which functions / parameter names / objects / return-value requests), its DATA are symbolic:
+ * expected counts (0..2), parameter values (32 bit), object identities, return values, strict order on/off,
+ * ignoreOtherCalls on/off.  The failure reporter hands the first failure to h_fail_hook, which compares its
+ * category and the step at which it arrives with the oracle and ends the path (a failing mock check leaves the test).
+ *
+ * Oracle (from the property text): the expectations are a multiset of calls (function, parameter, object) with
+ * multiplicities.  Actual calls are compared in call order; each consumes one unit of the first declared
+ * expectation it agrees with completely.  The first call that cannot consume anything is the first deviation; its
+ * diagnosis is the first attribute, in the order the call supplies them (function, object, parameter, end of
+ * call), that no still-open expectation accepts.  At checkExpectations an open expectation is a deviation, and under
+ * strict order so is a call that consumed an expectation out of its turn.  No deviation <=> no failure. */
 #include "h08_pool.h"
 
-static uint32_t failed, cat;
-void h_exit_hook(void) { CHECK(0, "the test is never left through the framework's own exit"); END_PATH(); }
-static int want_fail, want_cat;
+/* ---------------------------------------------------------------- failure categories = the Mock*Failure classes */
+enum { C_NONE, C_UNFULFILLED, C_UNEXPECTED_CALL, C_ORDER, C_PARAM, C_MISSING_PARAM, C_UNEXPECTED_OBJECT, C_OBJECT_MISSING, C_OTHER };
+static uint32_t stub_cat;      /* translated world: set by the constructor stubs */
+#ifdef LL2C_TRANSLATED
+/* translated world: message construction (C14's subject; strings of 50-250 bytes) is replaced by the category of
+ * the failure class.  The object is left unconstructed: the reporter never returns, so nobody reads or destroys it. */
+void _ZN35MockExpectedCallsDidntHappenFailureC2EP10UtestShellRK21MockExpectedCallsList(uint8_t* t, uint8_t* s, uint8_t* l) { (void)t; (void)s; (void)l; stub_cat = C_UNFULFILLED; }
+void _ZN33MockUnexpectedCallHappenedFailureC2EP10UtestShellRK12SimpleStringRK21MockExpectedCallsList(uint8_t* t, uint8_t* s, uint8_t* n, uint8_t* l) { (void)t; (void)s; (void)n; (void)l; stub_cat = C_UNEXPECTED_CALL; }
+void _ZN20MockCallOrderFailureC2EP10UtestShellRK21MockExpectedCallsList(uint8_t* t, uint8_t* s, uint8_t* l) { (void)t; (void)s; (void)l; stub_cat = C_ORDER; }
+void _ZN35MockUnexpectedInputParameterFailureC2EP10UtestShellRK12SimpleStringRK14MockNamedValueRK21MockExpectedCallsList(uint8_t* t, uint8_t* s, uint8_t* n, uint8_t* p, uint8_t* l) { (void)t; (void)s; (void)n; (void)p; (void)l; stub_cat = C_PARAM; }
+void _ZN36MockUnexpectedOutputParameterFailureC2EP10UtestShellRK12SimpleStringRK14MockNamedValueRK21MockExpectedCallsList(uint8_t* t, uint8_t* s, uint8_t* n, uint8_t* p, uint8_t* l) { (void)t; (void)s; (void)n; (void)p; (void)l; stub_cat = C_OTHER; }
+void _ZN39MockExpectedParameterDidntHappenFailureC2EP10UtestShellRK12SimpleStringRK21MockExpectedCallsListS7_(uint8_t* t, uint8_t* s, uint8_t* n, uint8_t* l, uint8_t* m) { (void)t; (void)s; (void)n; (void)l; (void)m; stub_cat = C_MISSING_PARAM; }
+void _ZN35MockNoWayToCompareCustomTypeFailureC2EP10UtestShellRK12SimpleString(uint8_t* t, uint8_t* s, uint8_t* n) { (void)t; (void)s; (void)n; stub_cat = C_OTHER; }
+void _ZN32MockNoWayToCopyCustomTypeFailureC2EP10UtestShellRK12SimpleString(uint8_t* t, uint8_t* s, uint8_t* n) { (void)t; (void)s; (void)n; stub_cat = C_OTHER; }
+void _ZN27MockUnexpectedObjectFailureC2EP10UtestShellRK12SimpleStringPKvRK21MockExpectedCallsList(uint8_t* t, uint8_t* s, uint8_t* n, uint8_t* o, uint8_t* l) { (void)t; (void)s; (void)n; (void)o; (void)l; stub_cat = C_UNEXPECTED_OBJECT; }
+void _ZN36MockExpectedObjectDidntHappenFailureC2EP10UtestShellRK12SimpleStringRK21MockExpectedCallsList(uint8_t* t, uint8_t* s, uint8_t* n, uint8_t* l) { (void)t; (void)s; (void)n; (void)l; stub_cat = C_OBJECT_MISSING; }
+/* any failure of the framework's own checks inside the mock engine (FAIL("...This cannot happen"), a typed getter
+ * used on the wrong type, malloc returning NULL) is a violation here; the real build arrives at h_exit_hook instead */
+void _ZN10UtestShell4failEPKcS1_mRK14TestTerminator(uint8_t* t, uint8_t* text, uint8_t* file, uint64_t line, uint8_t* term) { (void)t; (void)text; (void)file; (void)line; (void)term; CHECK(0, "the mock engine never fails one of the framework's own checks"); END_PATH(); }
+void _ZN10UtestShell8failWithERK11TestFailureRK14TestTerminator(uint8_t* t, uint8_t* f, uint8_t* term) { (void)t; (void)f; (void)term; CHECK(0, "the mock engine never fails one of the framework's own checks"); END_PATH(); }
+#endif
+void h_exit_hook(void) { CHECK(0, "the mock engine never fails one of the framework's own checks"); END_PATH(); }
+
+static int starts(const uint8_t* m, const char* p) { for (int i = 0; p[i]; i++) if (m[i] != (uint8_t)p[i]) return 0; return 1; }
+/* real build: the category is the first line of the real message */
+static uint32_t cat_of_message(const uint8_t* m) {
+  if (starts(m, "Mock Failure: Expected call WAS NOT fulfilled.")) return C_UNFULFILLED;
+  if (starts(m, "Mock Failure: Unexpected call to function: ") || starts(m, "Mock Failure: Unexpected additional (")) return C_UNEXPECTED_CALL;
+  if (starts(m, "Mock Failure: Out of order calls")) return C_ORDER;
+  if (starts(m, "Mock Failure: Unexpected parameter name to function \"") || starts(m, "Mock Failure: Unexpected parameter value to parameter \"")) return C_PARAM;
+  if (starts(m, "Mock Failure: Expected parameter for function \"")) return C_MISSING_PARAM;
+  if (starts(m, "MockFailure: Function called on an unexpected object: ")) return C_UNEXPECTED_OBJECT;
+  if (starts(m, "Mock Failure: Expected call on object for function \"")) return C_OBJECT_MISSING;
+  return C_OTHER;
+}
+
+/* ---------------------------------------------------------------- the scenario and its oracle */
+#define MAXE 2
+#define MAXA 3
+typedef struct { int f, hasp, p, haso, wantr; uint32_t v, o, n, rv, used; } call_t;
+static call_t ex[MAXE], ac[MAXA];
+static int NE, NA;
+static uint32_t strict, ignore_others;
+static uint32_t due;          /* category that has to be reported at the current step (C_NONE: nothing may be reported) */
+static uint32_t order_bad;    /* a call consumed an expectation out of its turn (strict order) */
+static uint32_t checked_calls;
+static int pending = -1;      /* actual call whose end-of-call verdict is still outstanding */
+static int pending_match;     /* expectation it consumes, -1: none */
+static uint32_t pending_cat;
+
 void h_fail_hook(uint8_t* m) {
-  failed++;
-  cat = m[0] == '#' ? 100 + m[1] : m[14] * 256 + m[25];
+#ifdef LL2C_TRANSLATED
+  (void)m; (void)cat_of_message; uint32_t cat = stub_cat;
+#else
+  uint32_t cat = cat_of_message(m);
+#endif
   OBSERVE(cat);
-  CHECK(want_fail, "a failure is reported only if the actual calls deviate from the expectations");
+  CHECK(due != C_NONE, "a failure is reported only when the actual calls deviate from the expectations, and only at the step where the deviation shows");
+  CHECK(cat == due, "the reported failure carries the diagnosis of the first deviation");
   WITNESS("failure path");
   END_PATH();
 }
 
-HARNESS(harness_v0) {
+static int same_spec(const call_t* a, const call_t* b) {
+  if (a->f != b->f || a->hasp != b->hasp || a->haso != b->haso) return 0;
+  if (a->hasp && (a->p != b->p || a->v != b->v)) return 0;
+  if (a->haso && a->o != b->o) return 0;
+  return 1;
+}
+/* both could accept one and the same actual call without being the same expectation */
+static int ambiguous(const call_t* a, const call_t* b) {
+  if (a->f != b->f || a->hasp != b->hasp) return 0;
+  if (a->hasp && (a->p != b->p || a->v != b->v)) return 0;
+  return a->haso != b->haso;       /* same function and parameter; one names an object, the other accepts any */
+}
+static int is_ignored(const call_t* a) {
+  if (!ignore_others) return 0;
+  for (int i = 0; i < NE; i++) if (ex[i].f == a->f) return 0;
+  return 1;
+}
+/* expectation that stands at position k (1-based) of the expected sequence, -1: none */
+static int expected_at(uint32_t k) {
+  uint32_t s = 0;
+  for (int i = 0; i < NE; i++) { if (k > s && k <= s + ex[i].n) return i; s += ex[i].n; }
+  return -1;
+}
+/* verdict of actual call a, attribute by attribute; sets what is due at which stage */
+enum { ST_NAME, ST_OBJECT, ST_PARAM, ST_END };
+static uint32_t call_cat; static int call_stage, call_match;
+static void judge(const call_t* a) {
+  int c[MAXE], any = 0;
+  call_match = -1; call_cat = C_NONE; call_stage = ST_END;
+  for (int i = 0; i < NE; i++) { c[i] = ex[i].f == a->f && ex[i].used < ex[i].n; any |= c[i]; }
+  if (!any) { call_cat = C_UNEXPECTED_CALL; call_stage = ST_NAME; return; }
+  if (a->haso) {
+    any = 0;
+    for (int i = 0; i < NE; i++) { c[i] = c[i] && (!ex[i].haso || ex[i].o == a->o); any |= c[i]; }
+    if (!any) { call_cat = C_UNEXPECTED_OBJECT; call_stage = ST_OBJECT; return; }
+  }
+  if (a->hasp) {
+    any = 0;
+    for (int i = 0; i < NE; i++) { c[i] = c[i] && ex[i].hasp && ex[i].p == a->p && ex[i].v == a->v; any |= c[i]; }
+    if (!any) { call_cat = C_PARAM; call_stage = ST_PARAM; return; }
+  }
+  int missing_param = 0;
+  for (int i = 0; i < NE; i++) {
+    if (!c[i]) continue;
+    if (ex[i].hasp && !a->hasp) { missing_param = 1; continue; }
+    if (ex[i].haso && !a->haso) continue;
+    if (call_match < 0) call_match = i;
+  }
+  if (call_match < 0) call_cat = missing_param ? C_MISSING_PARAM : C_OBJECT_MISSING;
+}
+/* the end of a call: its deviation, if any, is due now */
+static void settle_pending(void) {
+  if (pending < 0) return;
+  if (pending_cat != C_NONE) due = pending_cat;
+}
+static void consume(int m, uint32_t position) {
+  ex[m].used++;
+  if (strict) { int e = expected_at(position); if (e < 0 || !same_spec(&ex[e], &ex[m])) order_bad = 1; }
+}
+
+static void parse_call(const char* s, int* pos, call_t* c) {
+  int i = *pos;
+  c->f = s[i++]; c->hasp = 0; c->haso = 0; c->wantr = 0; c->p = 0;
+  if (s[i] == 'p' || s[i] == 'q') { c->hasp = 1; c->p = s[i++]; }
+  if (s[i] == 'o') { c->haso = 1; i++; }
+  if (s[i] == 'r') { c->wantr = 1; i++; }
+  *pos = i;
+}
+/* script: expectations "_"-separated, "__", actual calls "_"-separated; a call is  <function a|b>[<parameter p|q>][o][r]
+ * (o: on an object, r: the actual call asks for its return value) */
+static void parse(const char* s) {
+  int i = 0;
+  NE = 0; NA = 0;
+  for (;;) { parse_call(s, &i, &ex[NE++]); if (s[i] == '_' && s[i + 1] == '_') { i += 2; break; } i++; }
+  for (;;) { parse_call(s, &i, &ac[NA++]); if (!s[i]) break; i++; }
+}
+
+static void body(const char* script) {
   h_init();
-  IN_U32(ve); IN_U32(va);
-  h_expect_one('a');
-  h_exp_param('p', ve);
-  want_fail = !(ve == va);
-  h_actual('a');
-  h_act_param('p', va);
+  parse(script);
+  IN_BOOL(in_strict); IN_BOOL(in_ignore); IN_ARR_U32(en, MAXE); IN_ARR_U32(ev, MAXE); IN_ARR_U32(eo, MAXE); IN_ARR_U32(er, MAXE);
+  IN_ARR_U32(av, MAXA); IN_ARR_U32(ao, MAXA); IN_U32(dflt);
+  strict = in_strict; ignore_others = in_ignore;
+  for (int i = 0; i < NE; i++) { ASSUME(en[i] <= 2); ex[i].n = en[i]; ex[i].v = ev[i]; ex[i].o = eo[i] & 1; ex[i].rv = er[i]; ex[i].used = 0; }
+  for (int k = 0; k < NA; k++) { ac[k].v = av[k]; ac[k].o = ao[k] & 1; }
+  /* precondition of the property: matching is unambiguous */
+  for (int i = 0; i < NE; i++) for (int j = i + 1; j < NE; j++) ASSUME(!ambiguous(&ex[i], &ex[j]));
+
+  if (strict) h_strict();
+  if (ignore_others) h_ignore_others();
+  for (int i = 0; i < NE; i++) {
+    h_expect(ex[i].n, ex[i].f);
+    if (ex[i].haso) h_exp_object(ex[i].o);
+    if (ex[i].hasp) h_exp_param(ex[i].p, ex[i].v);
+    h_exp_return(ex[i].rv);
+  }
+  for (int k = 0; k < NA; k++) {
+    call_t* a = &ac[k];
+    int ign = is_ignored(a);
+    OBSERVE(ign);
+    /* a new call first brings the previous one to its end */
+    due = C_NONE; settle_pending();
+    if (due == C_NONE && pending >= 0) { consume(pending_match, checked_calls); pending = -1; }
+    if (!ign && due == C_NONE) {
+      judge(a);
+      if (call_stage == ST_NAME) due = call_cat;
+    }
+    h_actual(a->f);
+    CHECK(due == C_NONE, "a deviation that shows at this step is reported at this step");
+    pending = -1;
+    if (ign) {
+      if (a->haso) h_act_object(a->o);
+      if (a->hasp) h_act_param(a->p, a->v);
+      if (a->wantr) { uint32_t r = h_act_return(dflt); OBSERVE(r); CHECK(r == dflt, "an ignored call returns the caller's default"); }
+      continue;
+    }
+    checked_calls++;
+    if (a->haso) {
+      if (call_stage == ST_OBJECT) due = call_cat;
+      h_act_object(a->o);
+      CHECK(due == C_NONE, "a deviation that shows at this step is reported at this step");
+    }
+    if (a->hasp) {
+      if (call_stage == ST_PARAM) due = call_cat;
+      h_act_param(a->p, a->v);
+      CHECK(due == C_NONE, "a deviation that shows at this step is reported at this step");
+    }
+    pending = k; pending_match = call_match; pending_cat = call_stage == ST_END ? call_cat : C_NONE;
+    if (a->wantr) {
+      settle_pending();
+      uint32_t r = h_act_return(dflt);
+      CHECK(due == C_NONE, "a deviation that shows at this step is reported at this step");
+      OBSERVE(r);
+      CHECK(r == ex[pending_match].rv, "an actual call returns the return value of the expectation it consumed");
+      consume(pending_match, checked_calls); pending = -1;
+    }
+  }
+  /* checkExpectations: the last call ends; then open expectations, then the order */
+  due = C_NONE; settle_pending();
+  if (due == C_NONE) {
+    if (pending >= 0) { consume(pending_match, checked_calls); pending = -1; }
+    int open = 0;
+    for (int i = 0; i < NE; i++) if (ex[i].used != ex[i].n) open = 1;
+#ifdef KF_C08_1
+    /* open finding: with strict order, an out-of-order call AND an unfulfilled expectation are reported as "not fulfilled",
+     * although the out-of-order call is the earlier deviation */
+    ASSUME(!(open && order_bad));
+#endif
+    due = order_bad ? C_ORDER : open ? C_UNFULFILLED : C_NONE;
+  }
+  OBSERVE(due);
   h_check();
-  CHECK(!want_fail, "no failure reported only if calls match");
+  CHECK(due == C_NONE, "checkExpectations fails the test when an expectation is open or, under strict order, a call came out of turn");
   WITNESS("end");
 }
-HARNESS(harness_v1) {
-  h_init();
-  IN_U32(ve); IN_U32(va);
-  h_expect_one('a');
-  h_exp_param('p', ve);
-  want_fail = 1;
-  h_actual('a');
-  h_act_param('q', va);
-  h_check();
-  CHECK(!want_fail, "no failure reported only if calls match");
-  WITNESS("end");
-}
+
+#define S(s) HARNESS(harness_##s) { body(#s); }
+S(ap__ap)
+S(ap__aq)
+S(a__b)
